@@ -61,7 +61,7 @@ def shares_storage(t, a):
         return False
 
 
-def run_program(ctx, mon, oq, rng, wd, depth, names, directed=None):
+def run_program(ctx, mon, oq, rng, wd, depth, names, directed=None, infer_steps=False):
     pool = programs.Pool(oq, rng, wd)
     roots = {}  # id(tensor) -> alias root in the *float* program (views share the root of their source)
     producer = {}  # id(tensor) -> template that produced it
@@ -114,7 +114,14 @@ def run_program(ctx, mon, oq, rng, wd, depth, names, directed=None):
                 inplace_payload = payload.get(id(a), id(a))
                 ctx.count("inplace_writes_into_live_tensors")
             try:
-                out = thunk()
+                # one step in five runs under torch.inference_mode() (the recommended inference context) on operands that
+                # were created outside it, as parameters and cached tensors are
+                if infer_steps and rng.random() < 0.2:
+                    ctx.count("steps_under_inference_mode")
+                    with torch.inference_mode():
+                        out = thunk()
+                else:
+                    out = thunk()
             except Exception:
                 raised = True
             if inplace_root is not None:
